@@ -108,6 +108,8 @@ type gen struct {
 	paramBind  map[string]binding
 	axiomsDone bool
 
+	inTypeInv   bool
+	localCell   map[string]string
 	known       map[string]Finding
 	canaryDone  bool
 	lockSiteOrd map[interface{}]int
@@ -506,7 +508,7 @@ func (g *gen) bindParams(fs *FuncSpec, fn *ssa.Function, sig *types.Signature, a
 func (g *gen) havocModifies(n *node, fs *FuncSpec, e *env, st *State) {
 	for _, ml := range fs.Modifies {
 		if ml.All == "heap" {
-			g.havocHeap(st)
+			g.havocHeap(n, st)
 			continue
 		}
 		if strings.HasPrefix(ml.All, "cells(") {
@@ -696,14 +698,14 @@ func arrayKeySort(s string) string {
 }
 
 // havocHeap: everything shared (field maps, cells, non-local ghosts); thread-local ghosts survive.
-func (g *gen) havocHeap(st *State) {
+func (g *gen) havocHeap(n *node, st *State) {
 	var names []string
 	for name := range g.allVars {
 		names = append(names, name)
 	}
 	sort.Strings(names)
 	for _, name := range names {
-		if strings.HasPrefix(name, "snap.") || name == "$nxt" || name == "$held" || strings.HasPrefix(name, "$defer.") {
+		if strings.HasPrefix(name, "snap.") || name == "$nxt" || name == "$held" || strings.HasPrefix(name, "L.") || strings.HasPrefix(name, "$defer.") || strings.HasPrefix(name, "$it.") {
 			continue
 		}
 		if strings.HasPrefix(name, "$") {
